@@ -162,7 +162,7 @@ func schedRevalidateAfterRelock(c *Ctx) *RuleResult {
 			// the comparison with a fresh lookup itself
 			validated := false
 			for _, anc := range pathTo(u.Decl.Body, id) {
-				if be, ok := anc.(*ast.BinaryExpr); ok && be.Op == token.EQL {
+				if be, ok := anc.(*ast.BinaryExpr); ok && (be.Op == token.EQL || be.Op == token.NEQ) {
 					for _, side := range []ast.Expr{be.X, be.Y} {
 						if ix, ok := ast.Unparen(side).(*ast.IndexExpr); ok && fieldOf(info, ix.X) == onm {
 							validated = true
@@ -818,22 +818,14 @@ func c18LockOwnerRules(c *Ctx) *RuleResult {
 	units := p.UnitsIn(nfsPkg)
 	for _, tn := range []string{"nfs40OpenOwnerFileState", "nfs41OpenOwnerFileState"} {
 		f := p.LookupField(nfsPkg, tn, "lockOwnerFiles")
-		for _, w := range FieldWrites(units, f, false) {
-			as, ok := w.Node.(*ast.AssignStmt)
-			if !ok {
-				continue
-			}
-			ix, ok := ast.Unparen(w.Expr).(*ast.IndexExpr)
-			if !ok {
-				continue
-			}
-			u := w.Unit
+		// looked(u, at, key): on every path of u to `at` an existing record was looked up, or the
+		// key was created in this call
+		var looked func(u *FuncUnit, at ast.Node, key ast.Expr, depth int) bool
+		looked = func(u *FuncUnit, at ast.Node, key ast.Expr, depth int) bool {
 			info := u.Info()
 			g := NewFuncCFG(info, u.Decl.Body)
-			construct := constructOf(u, "insert into "+tn+".lockOwnerFiles")
-			// the variable whose nil-ness guards the insertion, if any
 			var guardVar types.Object
-			for _, gd := range flattenGuards(GuardsOf(info, u.Decl.Body, as)) {
+			for _, gd := range flattenGuards(GuardsOf(info, u.Decl.Body, at)) {
 				if x, nonNil, ok := nilTestOf(gd); ok && !nonNil {
 					if id, ok := ast.Unparen(x).(*ast.Ident); ok {
 						guardVar = info.ObjectOf(id)
@@ -842,20 +834,20 @@ func c18LockOwnerRules(c *Ctx) *RuleResult {
 			}
 			guardStart := token.NoPos
 			if guardVar != nil {
-				for _, anc := range pathTo(u.Decl.Body, as) {
+				for _, anc := range pathTo(u.Decl.Body, at) {
 					if ifs, ok := anc.(*ast.IfStmt); ok && mentionsIdent(ifs.Cond, guardVar.Name()) {
 						guardStart = ifs.Pos()
 					}
 				}
 			}
 			keyObj := types.Object(nil)
-			if kid, ok := ast.Unparen(ix.Index).(*ast.Ident); ok {
+			if kid, ok := ast.Unparen(key).(*ast.Ident); ok {
 				keyObj = info.ObjectOf(kid)
 			}
 			barrier := func(n ast.Node) bool {
 				switch x := n.(type) {
 				case *ast.AssignStmt:
-					if x == as || (guardStart.IsValid() && x.Pos() >= guardStart) {
+					if x == at || (guardStart.IsValid() && x.Pos() >= guardStart) {
 						return false
 					}
 					for i, l := range x.Lhs {
@@ -866,7 +858,6 @@ func c18LockOwnerRules(c *Ctx) *RuleResult {
 						if guardVar != nil && info.ObjectOf(lid) == guardVar {
 							return true
 						}
-						// the key (lock-owner) is created here
 						if keyObj != nil && info.ObjectOf(lid) == keyObj && i < len(x.Rhs) {
 							if ue, ok := ast.Unparen(x.Rhs[i]).(*ast.UnaryExpr); ok && ue.Op == token.AND {
 								if _, isLit := ast.Unparen(ue.X).(*ast.CompositeLit); isLit {
@@ -876,16 +867,62 @@ func c18LockOwnerRules(c *Ctx) *RuleResult {
 						}
 					}
 				case *ast.IndexExpr:
-					if guardVar == nil && fieldOf(info, x.X) == f {
+					if guardVar == nil && fieldOf(info, x.X) == f && x.Pos() < at.Pos() {
 						return true
 					}
 				}
 				return false
 			}
-			if reach, _ := g.reachableFrom(0, 0, as, barrier); reach {
-				r.bad(c.Prop, construct, posOf(p, as), "a lock-owner file can be registered without having looked for an existing one: a second LOCK with new_lock_owner for the same owner and file creates a duplicate record that CLOSE never removes, so the file is never closed")
-			} else {
+			if reach, _ := g.reachableFrom(0, 0, at, barrier); !reach {
+				return true
+			}
+			// a helper that registers the record for its caller: decided at every call site
+			if depth > 0 || keyObj == nil {
+				return false
+			}
+			pi := -1
+			sig := u.Fn.Type().(*types.Signature)
+			for i := 0; i < sig.Params().Len(); i++ {
+				if sig.Params().At(i) == keyObj {
+					pi = i
+				}
+			}
+			sites := CallsTo(units, u.Fn)
+			if pi < 0 || len(sites) == 0 {
+				return false
+			}
+			for _, cs := range sites {
+				call := cs.Node.(*ast.CallExpr)
+				if pi >= len(call.Args) {
+					return false
+				}
+				var at2 ast.Node = call
+				for _, anc := range pathTo(cs.Unit.Decl.Body, call) {
+					if st, ok := anc.(*ast.AssignStmt); ok {
+						at2 = st
+					}
+				}
+				if !looked(cs.Unit, at2, call.Args[pi], depth+1) {
+					return false
+				}
+			}
+			return true
+		}
+		for _, w := range FieldWrites(units, f, false) {
+			as, ok := w.Node.(*ast.AssignStmt)
+			if !ok {
+				continue
+			}
+			ix, ok := ast.Unparen(w.Expr).(*ast.IndexExpr)
+			if !ok {
+				continue
+			}
+			u := w.Unit
+			construct := constructOf(u, "insert into "+tn+".lockOwnerFiles")
+			if looked(u, as, ix.Index, 0) {
 				r.ok(construct, posOf(p, as), "an existing record is looked up (or the owner is new) on every path")
+			} else {
+				r.bad(c.Prop, construct, posOf(p, as), "a lock-owner file can be registered without having looked for an existing one: a second LOCK with new_lock_owner for the same owner and file creates a duplicate record that CLOSE never removes, so the file is never closed")
 			}
 		}
 	}
